@@ -270,7 +270,7 @@ func (db *ContractDB) parseContractText(file, text, defaultPkg string) error {
 		case "constglobal":
 			// constglobal pkgpath.Name zero
 			f := strings.Fields(c.rest)
-			if len(f) != 2 || f[1] != "zero" {
+			if len(f) != 2 || (f[1] != "zero" && f[1] != "init") {
 				return fmt.Errorf("%s:%d: bad constglobal", file, c.line)
 			}
 			db.ConstGlobals[f[0]] = f[1]
